@@ -400,9 +400,17 @@ func (u *Unit) wf(s *State, t types.Type, v *Term) *Term {
 		if impls := u.V.implementerTypes(t); len(impls) > 0 && len(impls) <= 12 {
 			// closed interface (orb.Geometry): the dynamic type is nil or one of the in-repo value kinds
 			alts := []*Term{Eq(Sel(d, 0, v), IntLit(0))}
+			var payload []*Term
 			for _, it := range impls {
-				alts = append(alts, Eq(Sel(d, 0, v), IntLit(int64(w.TypeID(it)))))
+				isT := Eq(Sel(d, 0, v), IntLit(int64(w.TypeID(it))))
+				alts = append(alts, isT)
+				if needsWF(it) {
+					if _, nested := it.Underlying().(*types.Interface); !nested {
+						payload = append(payload, Implies(isT, u.wf(s, it, u.unbox(s, v, it))))
+					}
+				}
 			}
+			base = And(append([]*Term{base}, payload...)...)
 			u.Assumed["values of interface "+types.TypeString(t, nil)+" are nil or one of its in-repo value kinds (pointer-to-kind dynamic types such as *orb.Point excluded)"] = true
 			return And(base, Or(alts...))
 		}
